@@ -149,7 +149,8 @@ pub struct SdesItem<'a> {
 }
 
 impl<'a> SdesItem<'a> {
-    const MIN_LEN: usize = 4;
+    /// type and length bytes: an empty item followed by the terminator fits in 3 bytes
+    const MIN_LEN: usize = 2;
     const VALUE_MAX_LEN: u8 = 255;
     pub const CNAME: u8 = 0x01;
     pub const NAME: u8 = 0x02;
